@@ -225,6 +225,9 @@ prop("C08", "Parse is total: a tree or an error, never a panic, hang or silent a
 ], imports=PARSER_IMPORTS)
 
 prop("C09", "The parsed tree reflects the program, not its layout", [
+    ("same_lines_same_tree", "same_lines_same_tree_computed", "FULL STATEMENT (line level): the parsed tree and the error are a function of the sequence of control lines -- two texts that are cut into the same control lines (blanks at line ends dropped) parse identically, whatever else differs between them: indentation, blank lines, LF or CR LF, `;` after statements, a final newline or none (induction on fuel through processCtl and the nested parser, the two sides running on different offsets and fuel)"),
+    ("same_lines_same_tree_rel", "same_lines_same_tree", "the same for the relational reading of the texts"),
+    ("layout_example", "layout_example", "not vacuous: a canonical text and a CR LF / tabs / blank lines / `;` / trailing blanks / no-final-newline layout of it have the same eight control lines, hence the same tree"),
     ("leading_layout_skipped", "skip_fmt_layout", "indentation with blanks or tabs, blank lines, LF or CRLF line ends and `;` before a statement are skipped"),
     ("layout_only_tail_is_end_of_input", "skip_fmt_none_all", "a tail of layout bytes (with or without a final newline) is the end of input"),
     ("trailing_blanks_dropped", "trim_right_blank_nonempty", "blanks and tabs at the end of a control line are trimmed and never empty the line"),
